@@ -509,6 +509,69 @@ def check_updates(ctx, terms=None):
             f"{listlit(hops)}, {listlit([fq(x) for x in outs])})")
         terms["hist_meta"].append({"resistances": [x.tolist() for x in rlist],
                                    "history": hist})
+    # results handed out before an update stay what they were (compare the
+    # values before and after a change of the resistances)
+    net = make(rlist[0])
+    for nm in ("edge_current_flow_betweenness", "admittive_degree", "get_R",
+               "get_admittance", "local_admittive_clustering"):
+        try:
+            first = getattr(net, nm)()
+            if hasattr(first, "toarray") or not isinstance(first, np.ndarray):
+                continue
+            snap = np.array(first, copy=True)
+            net.update_resistances(rlist[1].copy())
+            getattr(net, nm)()
+            ctx.evaluations += 1
+            if not np.array_equal(first, snap):
+                ctx.violation("ResNetwork." + nm,
+                              "a result handed out earlier changed when the "
+                              "measure was evaluated again after "
+                              "update_resistances",
+                              {"resistances": [x.tolist() for x in rlist[:2]],
+                               "measure": nm}, {"held": True})
+            net.update_resistances(rlist[0].copy())
+        except Exception as e:
+            ctx.violation("ResNetwork." + nm, "raises",
+                          {"resistances": [x.tolist() for x in rlist[:2]],
+                           "err": f"{type(e).__name__}: {e}"},
+                          {"kind": "exception"})
+    # the caller's array edited in place and handed over again: every query
+    # follows (queried before and after, so that anything kept from the
+    # first evaluation would show)
+    buf = rlist[0].copy()
+    net = make(rlist[0])
+    net.update_resistances(buf)
+    a_, b_ = rng.randrange(n), rng.randrange(n)
+    for nm in QUERIES:
+        try:
+            query(net, nm, a_, b_)
+        except Exception:
+            pass
+    buf[:] = rlist[1]
+    net.update_resistances(buf)
+    ref = make(rlist[1])
+    for nm in QUERIES:
+        try:
+            got, want = query(net, nm, a_, b_), query(ref, nm, a_, b_)
+        except Exception as e:
+            ctx.violation("ResNetwork." + nm, "raises after an in-place "
+                          "update", {"resistances": [x.tolist() for x in
+                                                     rlist[:2]],
+                                     "err": str(e)}, {"kind": "exception"})
+            continue
+        ctx.evaluations += 1
+        if not np.allclose(np.asarray(got, dtype=complex),
+                           np.asarray(want, dtype=complex), rtol=1e-9,
+                           atol=1e-9 * np.abs(np.asarray(
+                               want, dtype=complex)).max()):
+            ctx.violation("ResNetwork." + nm,
+                          "does not follow update_resistances when the same "
+                          "array is edited in place and handed over again",
+                          {"resistances": [x.tolist() for x in rlist[:2]],
+                           "node": a_, "other": b_,
+                           "got": np.asarray(got).tolist(),
+                           "want": np.asarray(want).tolist()},
+                          {"stale": True, "same_array": True})
     # linear scaling
     k = rng.choice([2.0, 10.0, 0.25])
     net = make(rlist[0])
